@@ -236,6 +236,7 @@ def _arg_witness(fn, snap):
 
 
 EPS32 = float(np.finfo(np.float32).eps)
+TINY = 4e-323    # eight spacings of the subnormal doubles: the only absolute floor used (no double result can be finer)
 
 
 def _rtol_for(arr, k):
@@ -312,14 +313,14 @@ def check_interp2d(ctx, x, xf, f, result):
         for c, more in enumerate(row):
             # a query ON a repeated node: the value of any of the equal nodes is acceptable
             for v in more:
-                if abs(got[i, c] - v) <= rt * loc[i, c] < abs(got[i, c] - ref[i, c]):
+                if abs(got[i, c] - v) <= rt * loc[i, c] + TINY < abs(got[i, c] - ref[i, c]):
                     ref[i, c] = v
     for names, clause in ((('inside',), 'interp2d.inside==columnwise-linear'), (('node',), 'interp2d.on-node==table-row'),
                           (('below', 'above'), 'interp2d.outside==end-row')):
         rows = [i for i, c in enumerate(classes) if c in names]
         if not rows:
             continue
-        okk, idx, err, allowed = tol.worst(got[rows], ref[rows], scale=loc[rows], rtol=rt)
+        okk, idx, err, allowed = tol.worst(got[rows], ref[rows], scale=loc[rows], rtol=rt, atol=TINY)
         ctx.check(okk, clause, wit,
                   'interp2d(x, xf, f): query %r (%s) column %s: got %r expected %r (|diff| %.3g > %.3g); nodes %s'
                   % ((qs[rows[idx[0]]], classes[rows[idx[0]]], idx[1], got[rows][idx], ref[rows][idx], err, allowed,
@@ -450,21 +451,21 @@ def check_rollav(ctx, values, steps, mode, result):
         roll = lambda alt=False: O.rolling_mean(x, st, mkey, alt)
     ref = np.array(roll())
     rt = _rtol_for(arr, 64)
-    okk, idx, err, allowed = tol.worst(got, ref, scale=scale, rtol=rt)
-    which = 'extra sample before'
-    if not okk and mkey == 'centre' and st % 2 == 0:
-        ref2 = np.array(roll(True))
-        ok2 = tol.worst(got, ref2, scale=scale, rtol=rt)[0]
-        if ok2:
-            okk, which = True, 'extra sample after'
-    if mkey == 'centre' and st % 2 == 0 and okk:
-        ctx.observe('rollav: even centred window, ' + which)
+    # centred window of EVEN width w: judged against the convention of the clean tree, the same for every w - samples
+    # i - w/2 .. i + w/2 - 1 (the extra sample lies BEFORE the current one); no other placement is accepted
+    okk, idx, err, allowed = tol.worst(got, ref, scale=scale, rtol=rt, atol=TINY)
+    if mkey == 'centre' and st % 2 == 0:
+        ctx.check(okk, 'rollav.centre(even w)==mean(i-w/2..i+w/2-1)', wit,
+                  'calc_roll_av_vals(%s..., steps=%d, mode=%r): even centred window is not samples i-%d .. i+%d (edges '
+                  'replicated); at %s got %r expected %r' % (x[:8], st, mode, st // 2, st // 2 - 1, idx,
+                                                             got[idx] if idx is not None else None,
+                                                             ref[idx] if idx is not None else None))
     ctx.check(okk, 'rollav.%s==window-mean' % mkey, wit,
               'calc_roll_av_vals(%s..., steps=%d, mode=%r)[%s] = %r, window mean with replicated edges = %r (|diff| %.3g > '
               '%.3g)' % (x[:8], st, mode, idx, got[idx] if idx is not None else None,
                          ref[idx] if idx is not None else None, err, allowed))
     if all(v == x[0] for v in x):
-        ctx.check(bool(np.all(np.abs(got - x[0]) <= rt * abs(x[0]) * (n + st) / st)), 'rollav.constant-preserved', wit,
+        ctx.check(bool(np.all(np.abs(got - x[0]) <= rt * abs(x[0]) * (n + st) / st + TINY)), 'rollav.constant-preserved', wit,
                   'constant series %r not preserved: %s' % (x[0], got[:8]))
 
 
@@ -493,6 +494,11 @@ def check_step_error(ctx, values, p, direction, result):
     if direction is not None:
         ctx.observe('calc_step_fn_vals_error: dir given (direction penalty is not part of the statement; not judged)')
         return
+    if p == 2 and arr.dtype.kind == 'f':
+        mx = float(np.max(np.abs(arr)))
+        if mx != 0 and not (1e-150 <= mx <= 1e150):
+            ctx.observe('calc_step_fn_vals_error: p=2 at an extreme scale, squares under/overflow (energy-type; not judged)')
+            return
     n = arr.size
     x = _floats(arr)
     exp = O.step_errors(x, int(p))
@@ -510,7 +516,8 @@ def check_step_error(ctx, values, p, direction, result):
     int_in = arr.dtype.kind in 'iu'
     for clause, sl in ((c_split, slice(0, n - 1)), (c_last, slice(n - 1, n))):
         g, e = gl[sl], exp[sl]
-        okk, idx, err, allowed = tol.worst(np.array(g, dtype=float), np.array(e), scale=scale, rtol=_rtol_for(arr, 64))
+        okk, idx, err, allowed = tol.worst(np.array(g, dtype=float), np.array(e), scale=scale, rtol=_rtol_for(arr, 64),
+                                           atol=TINY)
         fin = None
         if not okk and int_in and got.dtype == arr.dtype:
             # mechanism: float result stored into an array that inherited the integer dtype of the input
@@ -588,7 +595,8 @@ def check_levels(ctx, values, ind, result, ind_given=True):
     except Exception:
         got, shape_ok = np.zeros(2), False
     # each level is judged relative to the largest sample of ITS side (local scale), not of the whole series
-    okk = shape_ok and tol.close(got, np.array(ref), scale=np.array(O.step_level_scales(x, i)), rtol=_rtol_for(arr, 32))
+    okk = shape_ok and tol.close(got, np.array(ref), scale=np.array(O.step_level_scales(x, i)), rtol=_rtol_for(arr, 32),
+                                 atol=TINY)
     ctx.check(okk, 'stepfit.levels==side-means', wit,
               'calc_step_fn_steps_vals(%s%s, ind=%d) = %r, means before/after the split sample = %r'
               % (x[:10], '...' if n > 10 else '', i, result, ref))
@@ -1051,9 +1059,16 @@ def shape11(rng, n):
     return x, name
 
 
+def extreme_scale(rng):
+    """10^+-U(165, 250): every value is a normal double but a square or a product of two of them under/overflows."""
+    return float(10.0 ** (rng.uniform(165, 250) * (1 if rng.random() < 0.5 else -1)))
+
+
 def wide_scale(rng):
-    """Overall scale: 1, a power of two, or 10^U(-12, 12)."""
+    """Overall scale: 1, a power of two, 10^U(-12, 12), or (4 %) an extreme scale."""
     u = rng.random()
+    if u < 0.04:
+        return extreme_scale(rng)
     if u < 0.55:
         return float(10.0 ** rng.uniform(-12, 12))
     if u < 0.65:
@@ -1159,7 +1174,9 @@ def gen_table(rng, m, ncol=None):
     else:
         f = rng.normal(size=(m, ncol))
         f[:, int(rng.integers(ncol))] = float(rng.normal())
-    if k != 1 and rng.random() < 0.5:
+    if k != 1 and rng.random() < 0.06:
+        f = f * np.array([[extreme_scale(rng) for _ in range(ncol)]])          # extreme column scales (linear in the table)
+    elif k != 1 and rng.random() < 0.5:
         f = f * 10.0 ** rng.uniform(-12, 12, size=(1, ncol))
     if k == 1 and rng.random() < 0.5:
         f = f.astype([np.int64, np.int32, np.int8][int(rng.integers(3))])
@@ -1250,8 +1267,9 @@ def drive_interp(ctx, eqsig, rng, n_cases):
             q = gen_queries(rng, nodes)
             if nodes.dtype.kind == 'i' and rng.random() < 0.5:
                 q = np.round(q).astype(np.int64)
-            elif nodes.dtype.kind == 'f' and rng.random() < 0.12:
-                # float32 forms (all three, or only some of the arguments)
+            elif nodes.dtype.kind == 'f' and rng.random() < 0.12 and 1e-30 < float(np.max(np.abs(nodes))) < 1e30 \
+                    and (f.dtype.kind != 'f' or not f.size or float(np.max(np.abs(f))) < 1e30):
+                # float32 forms (all three, or only some of the arguments); not at the extreme scales
                 n32 = nodes.astype(np.float32)
                 if m == 1 or np.all(np.diff(n32) > 0):
                     which = int(rng.integers(0, 4))
@@ -1407,10 +1425,12 @@ def shape_series(rng, x):
     return x, '+extreme-last'
 
 
-def series_container(rng, x):
+def series_container(rng, x, float_only=False):
     """The same numbers (integers rounded) in one of the argument forms; integer forms of narrow dtypes use most of the
-    range of the dtype."""
+    range of the dtype. float_only: float64 array, list or tuple (extreme scales)."""
     k = int(rng.integers(0, 14))
+    if float_only:
+        k = [0, 8, 9][int(rng.integers(3))]
     if k <= 2:
         return np.array(x, dtype=float), 'f64'
     if k == 3:
@@ -1438,6 +1458,15 @@ def series_container(rng, x):
 
 
 def gen_roll_series(rng, n):
+    u = rng.random()
+    if u < 0.07:
+        # extreme scales (the rolling average is linear in the series): uniformly tiny / huge, extreme dynamic range, ripple
+        # on a large baseline, counts above 2**24 - kept in float64 / list / tuple containers
+        x, cls = gen.record(rng, n, amp=1.0) if rng.random() < 0.7 else shape11(rng, n)
+        if u < 0.03:
+            return x * extreme_scale(rng), cls + '/extreme-scale'
+        x, sfx = gen.special_scale(rng, x)
+        return x, cls + '/extreme-scale' + sfx
     amp = float(10.0 ** rng.uniform(-12, 12)) if rng.random() < 0.25 else None
     if rng.random() < 0.15:
         x, cls = shape11(rng, n)
@@ -1474,7 +1503,9 @@ def drive_rollav(ctx, eqsig, rng, n_cases):
         else:
             n = int(rng.integers(41, 401))
         x, cls = gen_roll_series(rng, n)
-        cont, kind = series_container(rng, x)
+        cont, kind = series_container(rng, x, float_only='/extreme-scale' in cls)
+        if '/extreme-scale' in cls:
+            ctx.observe('rollav series at an extreme scale')
         cont = dress(rng, cont)
         steps = int(rng.integers(1, n + 1))
         if n > 60:
@@ -1566,8 +1597,21 @@ def drive_stepfit(ctx, eqsig, rng, n_cases):
             cls = 'shape11-' + cls
         else:
             x, cls = gen_step_series(rng, n)
+        extreme = rng.random() < 0.06
+        if extreme:
+            if rng.random() < 0.4:
+                x = x * extreme_scale(rng)
+            else:
+                x = gen.special_scale(rng, x)[0]
+            cls += '/extreme-scale'
+            ctx.observe('stepfit series at an extreme scale')
         u = rng.random()
-        if u < 0.36:
+        if extreme:
+            vals = np.array(x, dtype=float)
+            kind = 'float64'
+            if rng.random() < 0.3:
+                vals, kind = vals.tolist(), 'list-float'
+        elif u < 0.36:
             v = rng.random()
             if v < 0.55:
                 dt = [np.int64, np.int64, np.int32][int(rng.integers(3))]
